@@ -115,8 +115,8 @@ theorem references_resolve {env : AEnv} {root : GNode} {mods : List SrcModule} {
     exact ⟨fun p hp => ex (this.1 p hp), fun x hx => ex (this.2 x hx)⟩
 
 /-- 4. completeness for functions, general form.  `k12_srcFuncs mods` lists `(id, definition)` for every function
-    definition the walker visits (module level, methods and decorated/overloaded methods of classes at any depth),
-    in walk order; `k12_lastDef id` picks the LAST definition with that id (a later definition overwrites an
+    definition the walker visits (plain, decorated and — when they have an implementation — overloaded functions,
+    at module level and as methods of classes at any depth; nothing in enum bodies), in walk order; `k12_lastDef id` picks the LAST definition with that id (a later definition overwrites an
     earlier one in the table).  That definition is recorded with its flags and parameter names. -/
 theorem flags_copied {env : AEnv} {root : GNode} {mods : List SrcModule} {r : AnaResult} {warnings : List String}
     (h : analyze env root mods = .ok (r, warnings)) {id : String} {f : FuncDef}
@@ -137,6 +137,18 @@ theorem flags_copied_toplevel {env : AEnv} {root : GNode} {mods : List SrcModule
       fn.params.map (·.name) = f.args.map (·.name) :=
   flags_copied h (k12_lastDef_of_unique (k12_toplevel_mem_srcFuncs hm hd) huniq)
 
+/-- 4a'. module level, overloaded: a top-level overloaded function WITH an implementation (`Def.overloaded (some f)`)
+    is recorded — as its implementation `f` — under `<module id>/<name>`, same condition.  (Before the repair of the
+    walker, overloaded functions were walked in class bodies only.) -/
+theorem flags_copied_toplevel_overloaded {env : AEnv} {root : GNode} {mods : List SrcModule} {r : AnaResult}
+    {warnings : List String} (h : analyze env root mods = .ok (r, warnings)) {m : SrcModule} {f : FuncDef} (hm : m ∈ mods)
+    (hd : Def.overloaded (some f) ∈ m.defs)
+    (huniq : ∀ p ∈ k12_srcFuncs mods, p.1 = replaceChar m.fullname '.' "/" ++ "/" ++ f.name → p.2 = f) :
+    ∃ fn ∈ r.functions, fn.id = replaceChar m.fullname '.' "/" ++ "/" ++ f.name ∧ fn.name = f.name ∧
+      fn.isStatic = f.isStatic ∧ fn.isClassMethod = f.isClass ∧ fn.isProperty = f.isProperty ∧
+      fn.params.map (·.name) = f.args.map (·.name) :=
+  flags_copied h (k12_lastDef_of_unique (k12_toplevel_overloaded_mem_srcFuncs hm hd) huniq)
+
 /-- 4b. methods of top-level (non-enum) classes, same condition -/
 theorem flags_copied_method {env : AEnv} {root : GNode} {mods : List SrcModule} {r : AnaResult} {warnings : List String}
     (h : analyze env root mods = .ok (r, warnings)) {m : SrcModule} {name fullname : String}
@@ -150,7 +162,8 @@ theorem flags_copied_method {env : AEnv} {root : GNode} {mods : List SrcModule} 
       fn.params.map (·.name) = f.args.map (·.name) :=
   flags_copied h (k12_lastDef_of_unique (k12_method_mem_srcFuncs hm hc he hd) huniq)
 
-/-- 4 (weak form, no side condition): the id of every visited function definition has an entry -/
+/-- 4 (weak form, no side condition): the id of every visited function definition (module-level overloaded functions
+    with an implementation included) has an entry -/
 theorem function_ids_recorded {env : AEnv} {root : GNode} {mods : List SrcModule} {r : AnaResult} {warnings : List String}
     (h : analyze env root mods = .ok (r, warnings)) {p : String × FuncDef} (hp : p ∈ k12_srcFuncs mods) :
     ∃ fn ∈ r.functions, fn.id = p.1 := by
